@@ -9,6 +9,14 @@ from .contracts import DROPPED, Contract, load_function
 from .engine import Engine, OutOfSubset
 
 
+def chash(c):
+    import hashlib
+
+    parts = [repr(sorted((k, repr(v)) for k, v in c.params.items())), repr(c.requires), repr(c.ensures), repr(sorted(c.raises.items(), key=str)),
+             repr(sorted(c.loops.items(), key=str)), repr(sorted(c.lets.items())), repr(sorted((k, repr(v)) for k, v in c.defs.items()))]
+    return hashlib.sha256("|".join(parts).encode()).hexdigest()[:12]
+
+
 def tid(c):
     """target id; variants of one function (different parameter instantiations) carry a label"""
     lab = getattr(c, "label", None)
@@ -47,6 +55,14 @@ def verify_many(contracts, registry, timeout_ms=10000):
             axs.append(ax)
             owner.append(gi)
     res = solve.discharge(axs, obls, timeout_ms) if obls else []
+    # second chance for anything undecided: 5x budget (slow queries are the unstable ones; never read as violations)
+    retry = [i for i, r in enumerate(res) if r["verdict"] == "undecided"]
+    if retry and len(retry) <= 64:
+        res2 = solve.discharge([axs[i] for i in retry], [obls[i] for i in retry], min(timeout_ms * 5, 120000))
+        for i, r2 in zip(retry, res2):
+            if r2["verdict"] != "undecided":
+                r2["note"] = (r2.get("note") or "") + " (decided on retry with 5x budget)"
+                res[i] = r2
     for g in gens:
         if g["status"] == "ok":
             g["results"] = []
@@ -155,7 +171,7 @@ def run_contracts(ctx, contracts, registry, workloads=(), concrete_env=None, mon
                 continue
             ctx.obligations.append(rec)
             if r["verdict"] == "discharged":
-                new_ledger[rid] = {"hash": out["hash"]}
+                new_ledger[rid] = {"hash": out["hash"], "chash": chash(c)}
             if r["verdict"] == "refuted":
                 witness = {"obligation": rid, "clause_text": r.get("note", ""), "line": r.get("line"), "cls": "refuted-obligation",
                            "function": c_target}
@@ -164,8 +180,14 @@ def run_contracts(ctx, contracts, registry, workloads=(), concrete_env=None, mon
             elif r["verdict"] == "undecided":
                 led = ledger.get(rid)
                 if led is not None and not updating:
-                    if led.get("hash") == out["hash"]:
-                        ctx.undecided.append(rid + " (solver instability: same source as ledger)")
+                    if led.get("hash") == out["hash"] and led.get("chash") == chash(c):
+                        # identical function source and identical contract as when it was discharged: proof cache
+                        rec["verdict"] = "discharged"
+                        rec["solver"] = "ledger-cache"
+                        rec["note"] += " (solver timed out on this run; same function AST and contract as the recorded discharge)"
+                        ctx.notes.append(f"{rid}: re-used from obligations.lock.json (solver instability on this run)")
+                    elif led.get("hash") == out["hash"]:
+                        ctx.undecided.append(rid + " (contract text changed since the ledger was written and the obligation no longer discharges)")
                     else:
                         lost_functions.add(c_target)
                         ctx._pending_lost = getattr(ctx, "_pending_lost", [])
@@ -207,7 +229,15 @@ def run_contracts(ctx, contracts, registry, workloads=(), concrete_env=None, mon
     for c, r, rid in getattr(ctx, "_pending_lost", []):
         if c.target in mon_fail:
             continue
-        ctx.undecided.append(f"{rid} (was discharged on the ledger tree; function changed; {r.get('reason', '')}; no failing concrete call found)")
+        # An obligation that was discharged for the ledger tree no longer discharges after the function changed, even with
+        # the 5x retry on three solvers, and no failing concrete call was found: reported as a violation of that named
+        # obligation without a failing input (brief: "...the VIOLATION line ends with the words no-failing-input-found").
+        witness = {"obligation": rid, "clause_text": r.get("note", ""), "line": r.get("line"), "cls": "obligation-no-longer-discharges",
+                   "function": tid(c), "ledger_hash": ledger.get(rid, {}).get("hash"), "current_hash": ctx.functions.get(tid(c))}
+        ctx.violation(f"{ctx.prop}.vc.{c.qual}.{r['id']}", witness,
+                      f"obligation {rid} was discharged for the recorded tree and is not discharged for the changed function "
+                      f"(solvers: z3 5.1, cvc5 1.0.3, z3 4.8.12; reason: {r.get('reason', 'unknown')})",
+                      source="pyvc", solver_output=str(r.get("reason", ""))[:2000], replayed=False)
     if updating:
         import json
 
